@@ -8,6 +8,7 @@ import (
 	"encoding/base64"
 	"encoding/json"
 	"fmt"
+	"math"
 	"sort"
 	"strings"
 	"sync"
@@ -40,6 +41,9 @@ type rec struct {
 	MapSt    string            `json:"mapst"` // pseudo-ID joins: state of the mxid_mapping ("ok" | "missing" | "corrupt")
 	Required []string          `json:"required"`
 	Strict   bool              `json:"strict"`
+	MaxTS    string            `json:"maxts"` // the largest origin_server_ts the room version admits: "2p53m1" | "2p64m1"
+	BT       batchRec          `json:"bt"`    // the batch (kv "none": a single event), see batch.go
+	BRes     batchRes          `json:"bres"`
 	Verdict  bool              `json:"verdict"`
 }
 
@@ -102,11 +106,18 @@ type memDB struct {
 	keys      map[gmsl.PublicKeyLookupRequest]gmsl.PublicKeyLookupResult
 	volunteer bool
 	failing   bool // every lookup answers with an error
+	// what it was asked, call by call (batches: the instant a key is asked for)
+	asked []map[gmsl.PublicKeyLookupRequest]spec.Timestamp
 }
 
 func (d *memDB) FetcherName() string { return "memDB" }
 func (d *memDB) FetchKeys(_ context.Context, reqs map[gmsl.PublicKeyLookupRequest]spec.Timestamp) (map[gmsl.PublicKeyLookupRequest]gmsl.PublicKeyLookupResult, error) {
 	out := map[gmsl.PublicKeyLookupRequest]gmsl.PublicKeyLookupResult{}
+	cp := make(map[gmsl.PublicKeyLookupRequest]spec.Timestamp, len(reqs))
+	for rq, at := range reqs {
+		cp[rq] = at
+	}
+	d.asked = append(d.asked, cp)
 	if d.failing {
 		return nil, fmt.Errorf("key source unavailable")
 	}
@@ -337,7 +348,7 @@ func (w *world) signaturesFor(impl gmsl.IRoomVersion, evJSON []byte, s, state st
 	w.privs[string(pub(k1))], w.privs[string(pub(k2))] = k1, k2
 	// validity of the server's current key: comfortably around origin_server_ts
 	vu := w.ts + hour
-	if w.r.TM != "normal" {
+	if !inThePast(w.r.TM) {
 		vu = w.now + 30*day
 	}
 	current := func(id gmsl.KeyID, k ed25519.PrivateKey) {
@@ -428,6 +439,16 @@ func (w *world) signaturesFor(impl gmsl.IRoomVersion, evJSON []byte, s, state st
 		for _, t := range req {
 			if t != s && (accomplice == "" || (w.r.Src[accomplice] != "db" && w.r.Src[t] == "db")) {
 				accomplice = t
+			}
+		}
+		if accomplice == "" {
+			// the other required servers carry no signature: their keys are never asked for, whoever vouches
+			others := append([]string{}, w.r.Required...)
+			sort.Strings(others)
+			for _, t := range others {
+				if t != s && accomplice == "" {
+					accomplice = t
+				}
 			}
 		}
 		if accomplice == "" {
@@ -603,6 +624,13 @@ func (w *world) present(impl gmsl.IRoomVersion, states map[string]string, idx in
 	return p
 }
 
+func p2ts(p gmsl.PDU) spec.Timestamp {
+	if p == nil {
+		return 0
+	}
+	return p.OriginServerTS()
+}
+
 func userIDForSender(_ spec.RoomID, senderID spec.SenderID) (*spec.UserID, error) {
 	return spec.NewUserID(string(senderID), true)
 }
@@ -617,17 +645,95 @@ func newWorld(r *rec, seed int64) *world {
 	}
 	w.now = time.Now().UnixMilli()
 	switch r.TM {
-	case "normal":
-		w.ts = 1700000000000 + seed*1000 // well in the verifier's past
 	case "future6d":
 		w.ts = w.now + 6*day
 	case "future8d":
 		w.ts = w.now + 8*day
 	default:
-		panic("harness: unknown time mode " + r.TM)
+		w.ts = instantValue(r.TM, r.MaxTS, seed)
 	}
 	return w
 }
+
+// instantValue realises an instant of EventSigs.tla as a count of milliseconds. Timestamps are unsigned 64-bit
+// counts in the library; the harness carries them as the int64 with the same bits (arithmetic wraps the same way,
+// time.UnixMilli / spec.AsTimestamp round-trip every value).
+func instantValue(t, maxts string, seed int64) int64 {
+	switch t {
+	case "normal":
+		return 1700000000000 + seed*1000 // well in the verifier's past
+	case "at0":
+		return 0
+	case "at1":
+		return 1
+	case "atwrap":
+		return math.MinInt64 // 2^63
+	case "atmax":
+		switch maxts {
+		case "2p53m1":
+			return 1<<53 - 1
+		case "2p63m1":
+			return math.MaxInt64 // 2^63 - 1
+		case "2p64m1":
+			return -1 // 2^64 - 1
+		}
+		panic("harness: unknown largest timestamp " + maxts)
+	}
+	panic("harness: unknown time mode " + t)
+}
+
+func isInstant(tm string) bool { return tm == "at0" || tm == "at1" || tm == "atwrap" || tm == "atmax" }
+
+// instantClass: at the ends of the time line the scenario is the instant, the validity rule and what the one
+// server that is not plainly "ok" carries - whatever the event is and wherever the keys are.
+func instantClass(r *rec) string {
+	strict := "lax"
+	if r.Strict {
+		strict = "strict"
+	}
+	if isPseudo(r.Ver) {
+		strict = "pseudo"
+	}
+	state, absent := "all-ok", 0
+	for _, s := range r.Required {
+		if r.Sig[s] == "absent" {
+			absent++
+		}
+		if r.Sig[s] != "ok" {
+			state = r.Sig[s]
+		}
+	}
+	if absent > 1 && absent == len(r.Required) {
+		state = "all-absent"
+	}
+	return fmt.Sprintf("%s/time=%s/%s", strict, timeLabel(r), state)
+}
+
+func keyClass(r *rec, cls string) string {
+	if isInstant(r.TM) {
+		return "instant/" + instantClass(r)
+	}
+	return cls
+}
+
+func inThePast(tm string) bool { return tm == "normal" || tm == "at0" || tm == "at1" }
+
+// instantLabel names an instant by its magnitude (keys and classes: what matters about the ends of the time line).
+func instantLabel(t, maxts string) string {
+	switch t {
+	case "at0":
+		return "0"
+	case "at1":
+		return "1"
+	case "atwrap":
+		return "2p63"
+	case "atmax":
+		return maxts
+	}
+	return t
+}
+
+func timeLabel(r *rec) string { return instantLabel(r.TM, r.MaxTS) }
 
 func class(r *rec) string {
 	// the scenario without version numbers: kind, coincidences, the states of the required servers
@@ -705,7 +811,7 @@ func class(r *rec) string {
 	if r.MapSt != "" && r.MapSt != "ok" {
 		keys += "/mxid_mapping=" + r.MapSt
 	}
-	return fmt.Sprintf("%s%s/%s/%s/time=%s%s", kind, via, strings.Join(st, ","), strict, r.TM, keys)
+	return fmt.Sprintf("%s%s/%s/%s/time=%s%s", kind, via, strings.Join(st, ","), strict, timeLabel(r), keys)
 }
 
 // others is the state of the servers that are not required.
@@ -731,9 +837,15 @@ func replayOne(i int, raw json.RawMessage, seed int64) hx.Result {
 	if err != nil {
 		return hx.Result{OK: false, Key: "C06/version/unregistered", What: "room version " + r.Ver + " is not registered"}
 	}
+	if r.BT.KV != "" && r.BT.KV != "none" {
+		return replayBatch(i, &r, impl, seed)
+	}
 	cls := class(&r)
 	w := newWorld(&r, seed)
 	p := w.compose(impl, i)
+	if got := uint64(p2ts(p)); p != nil && got != uint64(w.ts) {
+		panic(fmt.Sprintf("harness: origin_server_ts is %d, wanted %d", got, uint64(w.ts)))
+	}
 	ring := gmsl.KeyRing{KeyDatabase: w.db}
 	if w.fetch != nil {
 		ring.KeyFetchers = []gmsl.KeyFetcher{w.fetch}
@@ -752,9 +864,13 @@ func replayOne(i int, raw json.RawMessage, seed int64) hx.Result {
 	}
 	errOne := gmsl.VerifyEventSignatures(ctx, p, ring, userIDForSender)
 	if (errOne == nil) != r.Verdict {
-		return hx.Result{OK: false, NT: cls, Key: fmt.Sprintf("C06/verify/%s:model=%v", cls, r.Verdict),
-			What: fmt.Sprintf("VerifyEventSignatures (room version %s, %s, required servers %v, signature states %v, keys at %v, fetcher volunteers=%v, time %s): the specification says valid=%v, the library returned %v",
-				r.Ver, r.Kind, r.Required, r.Sig, r.Src, r.Vol, r.TM, r.Verdict, errOne),
+		key := fmt.Sprintf("C06/verify/%s:model=%v", cls, r.Verdict)
+		if isInstant(r.TM) {
+			key = fmt.Sprintf("C06/instant/%s:model=%v", instantClass(&r), r.Verdict)
+		}
+		return hx.Result{OK: false, NT: cls, Key: key,
+			What: fmt.Sprintf("VerifyEventSignatures (room version %s, %s, required servers %v, signature states %v, keys at %v, fetcher volunteers=%v, time %s, origin_server_ts %d): the specification says valid=%v, the library returned %v",
+				r.Ver, r.Kind, r.Required, r.Sig, r.Src, r.Vol, r.TM, uint64(w.ts), r.Verdict, errOne),
 			Want: r.Verdict, Got: fmt.Sprint(errOne), Extra: string(p.JSON())}
 	}
 	// the batch form (the same event object a second time): between an event that verifies and one that does not
@@ -765,7 +881,7 @@ func replayOne(i int, raw json.RawMessage, seed int64) hx.Result {
 	}
 	wantGood := r.Fail != "db" || isPseudo(r.Ver)
 	if (errs[0] == nil) != wantGood || errs[2] == nil || (errs[1] == nil) != r.Verdict {
-		return hx.Result{OK: false, NT: cls, Key: fmt.Sprintf("C06/verify-all/%s:model=%v", cls, r.Verdict),
+		return hx.Result{OK: false, NT: cls, Key: fmt.Sprintf("C06/verify-all/%s:model=%v", keyClass(&r, cls), r.Verdict),
 			What: fmt.Sprintf("VerifyAllEventSignatures over [valid, scenario, unsigned] (room version %s): want [nil, valid=%v, error], got %v", r.Ver, r.Verdict, errs),
 			Want: r.Verdict, Got: fmt.Sprint(errs)}
 	}
@@ -782,7 +898,7 @@ func replayOne(i int, raw json.RawMessage, seed int64) hx.Result {
 // signatures) whose signatures have the opposite validity, in both orders: every position gets its own verdict.
 func (w *world) twins(impl gmsl.IRoomVersion, ring gmsl.KeyRing, p gmsl.PDU, cls string, idx int) *hx.Result {
 	r := w.r
-	if r.TM != "normal" || (r.Fail != "" && r.Fail != "none") || (r.MapSt != "" && r.MapSt != "ok") || others(r) != "absent" {
+	if !inThePast(r.TM) || (r.Fail != "" && r.Fail != "none") || (r.MapSt != "" && r.MapSt != "ok") || others(r) != "absent" {
 		return nil
 	}
 	for _, st := range r.Sig {
@@ -838,7 +954,7 @@ func (w *world) twins(impl gmsl.IRoomVersion, ring gmsl.KeyRing, p gmsl.PDU, cls
 				want = !r.Verdict
 			}
 			if (errs[n] == nil) != want {
-				return &hx.Result{OK: false, NT: cls, Key: fmt.Sprintf("C06/verify-all/same-id/%s:model=%v", cls, r.Verdict),
+				return &hx.Result{OK: false, NT: cls, Key: fmt.Sprintf("C06/verify-all/same-id/%s:model=%v", keyClass(r, cls), r.Verdict),
 					What: fmt.Sprintf("VerifyAllEventSignatures on a batch holding the event twice under one event ID %s, once validly signed and once not (room version %s): position %d of %d must be valid=%v, got %v (all: %v)",
 						idP, r.Ver, n+1, len(order), want, errs[n], errs)}
 			}
